@@ -55,13 +55,19 @@ pub fn describe(d: &Diff) -> String {
 /// (reference has an opinion and the emulator did not panic).
 pub fn record(rep: &mut Report, check: &str, case: &Case, obs: &Obs, j: &Judge) -> bool {
     rep.evaluations += 1;
-    let form = obs.step.insn.form();
+    let form = obs.step.label.map(|l| l.to_string()).unwrap_or_else(|| obs.step.insn.form());
     if let RealOutcome::Panic(p) = &obs.real {
         rep.count("panics_observed", 1);
         if j.panics {
             let sig = format!("{}|{}", form_or_class(&obs.step.insn, &form), panic_sig(p));
             rep.finding(&sig, || format!("panic at {}:{}: {} on {}", p.file, p.line, p.msg, case.to_line()), || format!("check={} kind=step {}", check, case.to_line()));
         }
+        return false;
+    }
+    // overlapping data/address register in +/- forms: only the cycle mix (C20) and the decoder
+    // aspects (C07) are judged, the value-level properties exclude these cases
+    if obs.step.overlap && !j.cost {
+        rep.count("unjudged", 1);
         return false;
     }
     if let Some(f) = j.only {
